@@ -27,6 +27,8 @@ type Result struct {
 	// the marks of its serialised body relative to the body's first byte. Together with Layout.Patches they allow
 	// a fault to be applied to one object while every offset of the file stays consistent.
 	ObjMarks map[string][]Mark
+	// StmMembers: number of objects packed into each object stream (by symbolic id).
+	StmMembers map[string]int
 }
 
 type numbering struct {
@@ -39,12 +41,13 @@ type numbering struct {
 type freed struct{ num, gen int }
 
 type writer struct {
-	l        Layout
-	objMarks map[string][]Mark
-	buf      bytes.Buffer
-	marks    []Mark
-	nb    *numbering
-	eol   string
+	l          Layout
+	objMarks   map[string][]Mark
+	stmMembers map[string]int
+	buf        bytes.Buffer
+	marks      []Mark
+	nb         *numbering
+	eol        string
 }
 
 func (w *writer) mark(off, n int, role string) { w.marks = append(w.marks, Mark{off, n, role}) }
@@ -423,9 +426,9 @@ func Write(docs []Doc, l Layout) Result {
 		// ---- object streams ---------------------------------------------------
 		kind := l.xrefKind(rev)
 		type xent struct {
-			typ        int // 0 free, 1 offset, 2 compressed
-			f1, f2     int
-			num        int
+			typ    int // 0 free, 1 offset, 2 compressed
+			f1, f2 int
+			num    int
 		}
 		var entries []xent
 		var plain []pending
@@ -482,7 +485,17 @@ func Write(docs []Doc, l Layout) Result {
 				w.nb.next++
 				var head, body bytes.Buffer
 				for k, m := range members {
-					fmt.Fprintf(&head, "%d %d ", w.nb.num[m.id], body.Len())
+					hn, ho := strconv.Itoa(w.nb.num[m.id]), strconv.Itoa(body.Len())
+					for _, hf := range l.ObjStmHead {
+						if hf.Stm == sid && hf.Index == k {
+							if hf.Field == 0 {
+								hn = hf.New
+							} else {
+								ho = hf.New
+							}
+						}
+					}
+					fmt.Fprintf(&head, "%s %s ", hn, ho)
 					body.Write(m.body)
 					body.WriteString(" ")
 					entries = append(entries, xent{2, w.nb.num[sid], k, w.nb.num[m.id]})
@@ -507,6 +520,10 @@ func Write(docs []Doc, l Layout) Result {
 				w.mark(b.Len(), len(data), "streamdata")
 				b.Write(data)
 				b.WriteString(w.eol + "endstream")
+				if w.stmMembers == nil {
+					w.stmMembers = map[string]int{}
+				}
+				w.stmMembers[sid] = len(members)
 				objstms = append(objstms, pending{sid, w.patched(sid, b.Bytes(), w.marks), w.marks, true})
 				w.marks = saved
 			}
@@ -674,7 +691,7 @@ func Write(docs []Doc, l Layout) Result {
 		prevXRef = xrefOff
 	}
 
-	res := Result{Bytes: w.buf.Bytes(), Marks: w.marks, ObjNum: map[string][2]int{}, ObjMarks: w.objMarks}
+	res := Result{Bytes: w.buf.Bytes(), Marks: w.marks, ObjNum: map[string][2]int{}, ObjMarks: w.objMarks, StmMembers: w.stmMembers}
 	for id, n := range w.nb.num {
 		res.ObjNum[id] = [2]int{n, w.nb.gen[id]}
 	}
